@@ -32,7 +32,10 @@ RULE = ('1-6 route declarations (literals over an alphabet with every regex meta
         'missing / present with matching or non-matching value, names in other case or with _ for -), REAL request_method= predicates '
         '(single and tuples) on GET / POST / HEAD / PUT requests (GET implies HEAD), placeholders and remainders NAMED subpath / traverse '
         '(names the traverser reads) observed through request.matchdict in the view; the router-mode observation is handed over '
-        'in-process (HEAD responses have no body)')
+        'in-process (HEAD responses have no body); round 7: router mode re-declares a route name that an include declared (the '
+        'top-level declaration overrides, at its own place in declaration order, usually AFTER other overlapping routes; also two '
+        'includes + override, and conflicting declarations), and passes the legacy path= argument (alone, or together with a '
+        'different / the same pattern=); routes are identified by a per-declaration pregenerator tag')
 ASSUMPTIONS = [
     'route patterns are str; {name:regex} regexes outside the sublanguage (a non-empty sequence of atoms \\d \\w . [set] [^set] or a '
     'plain character, each with quantifier none + * ? {n} {n,} {,m} {n,m}) are classified Unsupported by the model and excluded',
@@ -57,6 +60,9 @@ TRUSTED = [
     'list machinery of config/predicates.py and the predicate classes the runs use (shape pins: RequestParamPredicate.__init__ -- '
     'hand-modelled as param_parse --, HeaderPredicate.__init__ -- header_parse --, RequestMethodPredicate.__init__ -- method_init_model --, '
     'XHRPredicate.__init__, TraversePredicate, CustomPredicate, Notted)',
+    'the conflict resolution of the commit (config/actions.py: resolveConflicts, ActionState.execute_actions / action, '
+    'ActionConfiguratorMixin.action: shape pins) hand-modelled as resolve_overrides for the include shapes of the harness (own include '
+    'chain per nested declaration; the root configurator overrides)',
     'the fail-closed scan c01facts.matchdict_sites (which functions of the package write to or hand on the live match dictionary)',
     "CPython re for the supported sublanguage and re.escape, WebOb's PATH_INFO decoding (modelled, validated by the "
     'correspondence run, not verified)',
@@ -64,7 +70,7 @@ TRUSTED = [
 TECHNIQUE = ('control-flow model REGENERATED from the source on every run by a fail-closed Python-ast -> Gallina translator '
              '(RoutesMapper.__call__, RoutesMapper.connect, Route.__init__, the matcher closure of _compile_route, split_path_info, '
              'decode_path_info, the listings get_routes / has_routes / get_route, the __call__ of RequestParamPredicate / HeaderPredicate / '
-             'XHRPredicate / RequestMethodPredicate, the route-prefix '
+             'XHRPredicate / RequestMethodPredicate, the legacy path= statement and the route-prefix '
              'fragments of Configurator.add_route / route_prefix_context) + Coq proofs that the regenerated program equals the hand-written reference model and satisfies '
              'the property theorems + regenerated string facts + differential correspondence of the extracted regenerated program')
 LEVEL_TEXT = ('Machine-checked theorems for every pattern of the modelled sublanguage, every path and every route list: the '
@@ -78,7 +84,9 @@ LEVEL_TEXT = ('Machine-checked theorems for every pattern of the modelled sublan
               'required value, the empty one included, equals it; resolving request predicates on the request and dispatching with the '
               'regenerated program equals the declarative specification; a traverse= route keeps every captured entry. The regenerated '
               'HeaderPredicate.__call__ holds iff EVERY requirement holds (order irrelevant), request_method= adds HEAD exactly when GET is '
-              'listed; only the matcher closure and TraversePredicate.__call__ write to the match dictionary (structural fact). The '
+              'listed; only the matcher closure and TraversePredicate.__call__ write to the match dictionary (structural fact). pattern= wins '
+              'over the legacy path= (regenerated statement); the declarations surviving include overrides are characterised (each at the '
+              'index of its own declaration, in order) and the regenerated program on them equals the specification. The '
               'extracted regenerated program is run against RoutesMapper and Router.')
 LEVEL_NOTE = ('Trusted: Coq kernel; the translator and its primitive table (harness/c01/translate.py); the hand-written model of the '
               'pattern parser (masked pin + regenerated literals) and the link between the matcher closure\'s groupdict and the '
@@ -111,7 +119,9 @@ def valid(case):
                     return False
                 if d.get('inherit') and d['pattern'] != '':
                     return False
-                if len(set(x['name'] for x in case['decls'])) < len(case['decls']):
+            if d.get('path') is not None or d.get('nopat'):
+                # the legacy path= argument of add_route (pattern= given as well, or left out: then d['pattern'] repeats the path text)
+                if case['mode'] != 'router' or not isinstance(d.get('path'), str) or (d.get('nopat') and d['pattern'] != d['path']):
                     return False
             for p in d['preds']:
                 if p[0] == 'const':
@@ -224,7 +234,7 @@ def _decoded(case):
 def _oracle(case):
     chars = set()
     for d in case['decls']:
-        chars.update(c for c in d['pattern'] if ord(c) > 127)
+        chars.update(c for c in d['pattern'] + (d.get('path') or '') if ord(c) > 127)
     chars.update(c for c in _decoded(case) if ord(c) > 127)
     chars = sorted(chars)
     return [''.join(c for c in chars if _W.match(c)), ''.join(c for c in chars if _D.match(c))]
@@ -278,8 +288,9 @@ def to_wire(case):
         if case['mode'] == 'router' and p is _router_real_method(d):
             return [7, 0, [p[1]]]
         return _pred_wire(p)
-    decls = [[d['name'], d['pattern'], int(d['static']), [pw(d, p) for p in d['preds']],
-              list(d.get('levels') or []), int(d.get('inherit') or 0)] for d in case['decls']]
+    decls = [[d['name'], [] if d.get('nopat') else [d['pattern']], int(d['static']), [pw(d, p) for p in d['preds']],
+              list(d.get('levels') or []), int(d.get('inherit') or 0), [] if d.get('path') is None else [d['path']]]
+             for d in case['decls']]
     raw = [] if case['path'] is None else [case['path']]
     return [_oracle(case), decls, raw, case['method'], 1 if case['mode'] == 'router' else 0,
             [_step_wire(st) for st in case.get('history') or []], _req_wire(case.get('req'))]
@@ -511,11 +522,13 @@ def _run_router(case):
     Response = _impl['Response']
     calls = []
     seen = {}
+    viewed = set()
 
     cur = {'ops': []}
 
     def view(request):
-        body = json.dumps({'name': request.matched_route.name, 'match': _dict_obs(request.matchdict)})
+        body = json.dumps({'name': request.matched_route.name, 'idx': request.matched_route.pregenerator.idx,
+                           'match': _dict_obs(request.matchdict)})
         cur['seen'] = body          # (a HEAD response has no body: the observation is handed over in-process)
         _mutate(request.matchdict, cur['ops'])
         return Response(body=body.encode('utf-8'), content_type='application/json')
@@ -570,14 +583,20 @@ def _run_router(case):
                     # falseval is a predicate value that does NOT hold for the harness's requests
                     real[id(p)] = (kname, not_(falseval) if p[1] else falseval)
             preds = [_mk_pred(p, i, calls) for p in d['preds'] if id(p) not in real]
-            kw = dict(static=bool(d['static']), custom_predicates=preds)
+            def tag(request, elements, kw2):       # pregenerator: no part in dispatch; identifies the DECLARATION
+                return elements, kw2
+            tag.idx = i
+            kw = dict(static=bool(d['static']), custom_predicates=preds, pregenerator=tag)
+            if d.get('path') is not None:
+                kw['path'] = d['path']
             for kname, val in real.values():
                 kw[kname] = val
             if d.get('inherit'):
                 kw['inherit_slash'] = True
-            _add_route_nested(config, list(d.get('levels') or []), d['name'], d['pattern'], kw)
-            if not d['static'] and d['name'] not in seen:
+            _add_route_nested(config, list(d.get('levels') or []), d['name'], None if d.get('nopat') else d['pattern'], kw)
+            if not d['static'] and d['name'] not in viewed:
                 config.add_view(view, route_name=d['name'])
+                viewed.add(d['name'])       # (an overridden declaration of the name may have been static)
             seen[d['name']] = i
         config.add_notfound_view(notfound)
         app = config.make_wsgi_app()
@@ -587,8 +606,8 @@ def _run_router(case):
             return [[], [], [], [3], []] + ([[]] if case.get('history') else [])
         raise
     mapper = config.get_routes_mapper()
-    rl = [seen[r.name] for r in mapper.routelist]
-    st = [seen[r.name] for r in mapper.static_routes]
+    rl = [r.pregenerator.idx for r in mapper.routelist]
+    st = [r.pregenerator.idx for r in mapper.static_routes]
     def start_response(status, headers, exc_info=None):
         pass
 
@@ -604,21 +623,21 @@ def _run_router(case):
             j = json.loads(cur['seen'])
             if j['name'] is None:
                 return [2] if not j.get('matched') else ['route-matched-but-no-view', j['matched']]
-            return [1, seen[j['name']], _canon_traverse(case, seen[j['name']], j['match'])]
+            return [1, j['idx'], _canon_traverse(case, j['idx'], j['match'])]
         except _impl['URLDecodeError']:
             return [0]
     def listing(op):
         if op[0] == 'routes':
-            return [4, [seen[r.name] for r in mapper.get_routes(include_static=bool(op[1]))]]
+            return [4, [r.pregenerator.idx for r in mapper.get_routes(include_static=bool(op[1]))]]
         if op[0] == 'has':
             return [5, int(bool(mapper.has_routes()))]
         r = mapper.get_route(op[1])
-        return [6, [] if r is None else [seen[r.name]]]
+        return [6, [] if r is None else [r.pregenerator.idx]]
     hist = [listing(h['list']) if 'list' in h else one(h['path'], h['method'], h['mutate'], h.get('req') or case.get('req'))
             for h in case.get('history') or []]
     out = one(case['path'], case['method'], [], case.get('req'))
-    rl = [seen[r.name] for r in mapper.routelist]
-    st = [seen[r.name] for r in mapper.static_routes]
+    rl = [r.pregenerator.idx for r in mapper.routelist]
+    st = [r.pregenerator.idx for r in mapper.static_routes]
     res = [[], rl, st, out, []]
     if case.get('history'):
         res.append(hist)
@@ -764,6 +783,19 @@ def kinds(case, obs):
             k.append('traverse-route-selected')
             if any(v != [1, []] and (v[0] == 1 or any(c in v[1] for c in ' %') or any(ord(c) > 127 for c in v[1])) for _, v in out[2]):
                 k.append('traverse-route-selected-with-quotable-capture')
+    if any(d.get('path') is not None for d in case['decls']):
+        k.append('legacy-path-argument')
+        if any(d.get('path') is not None and not d.get('nopat') and d['path'] != d['pattern'] for d in case['decls']):
+            k.append('legacy-path-and-pattern-differ')
+    names = [d['name'] for d in case['decls']]
+    if case['mode'] == 'router' and len(set(names)) < len(names) and out[0] != 3:
+        k.append('include-override-resolved')
+        # the overriding (top-level) declaration comes after another declaration that follows the overridden one
+        for i, d in enumerate(case['decls']):
+            if not d.get('levels') and any(e['name'] == d['name'] and e.get('levels') and j < i - 1
+                                           for j, e in enumerate(case['decls'][:i])):
+                k.append('include-override-declared-later-with-routes-between')
+                break
     if any(d.get('levels') for d in case['decls']):
         k.append('route-prefix')
         if any(d.get('levels') and d['pattern'].endswith('/') and d['pattern'].strip('/') for d in case['decls']):
